@@ -168,3 +168,32 @@ def record_paramkeys(queries):
     finally:
         SQLBuilder.make_composite_param = orig
     return out
+
+
+def pg_array_parse(text):
+    """PostgreSQL text[] literal -> list of str / None, by the documented syntax (mirror of Model/C29Json.v pg_array; no whitespace rules)"""
+    if not text.startswith('{') or not text.endswith('}'): return 'ERR'
+    if text == '{}': return []
+    s, i, out = text, 1, []
+    while True:
+        if i >= len(s): return 'ERR'
+        if s[i] == '"':
+            i += 1; buf = []
+            while True:
+                if i >= len(s): return 'ERR'
+                if s[i] == '"': i += 1; break
+                if s[i] == '\\':
+                    if i + 1 >= len(s): return 'ERR'
+                    buf.append(s[i + 1]); i += 2
+                else: buf.append(s[i]); i += 1
+            out.append(''.join(buf))
+        else:
+            j = i
+            while j < len(s) and s[j] not in ',{}"\\': j += 1
+            if j == i: return 'ERR'
+            w = s[i:j]; i = j
+            out.append(None if w.lower() == 'null' else w)
+        if i >= len(s): return 'ERR'
+        if s[i] == ',': i += 1; continue
+        if s[i] == '}': return out if i == len(s) - 1 else 'ERR'
+        return 'ERR'
